@@ -245,6 +245,9 @@ class Walker(ast.NodeVisitor):
 
     def visit_ImportFrom(self, node):
         if node.module == '__future__':
+            # `from __future__ import annotations` also binds the name (to a _Feature object)
+            for a in node.names:
+                self._bind(a.asname or a.name)
             return
         absmod = self._absolute(node.module, node.level)
         for a in node.names:
